@@ -78,6 +78,9 @@ deriving Repr, DecidableEq
 def parseTy : String → Option IntTy
   | "u8" => some .u8 | "u16" => some .u16 | "u32" => some .u32 | "u64" => some .u64
   | "i8" => some .i8 | "i16" => some .i16 | "i32" => some .i32 | "i64" => some .i64
+  -- defined types (`type Amount uint64` …) have the arithmetic of their underlying type
+  | "du8" => some .u8 | "di8" => some .i8 | "du32" => some .u32 | "di32" => some .i32
+  | "du64" => some .u64 | "di64" => some .i64
   | _ => none
 
 def showRes : Res Int → String
